@@ -146,6 +146,7 @@ func (m *c12cIM) kinds() []string {
 type c12cSource struct {
 	mu       sync.Mutex
 	attached map[int]bool
+	attaches map[int]int // how often handlers were attached to one informer
 }
 
 func (s *c12cSource) Source(handler.EventHandler, ...predicate.Predicate) source.Source { return nil }
@@ -154,6 +155,9 @@ func (s *c12cSource) handleNewInformer(i cache.SharedIndexInformer) error {
 	s.mu.Lock()
 	defer s.mu.Unlock()
 	s.attached[i.(*c12Informer).id] = true
+	if s.attaches != nil {
+		s.attaches[i.(*c12Informer).id]++
+	}
 	return nil
 }
 
@@ -223,6 +227,75 @@ type c12cScn struct {
 	Seed   int64  `json:"seed"`
 	Owners int    `json:"owners"`
 	Kinds  int    `json:"kinds"`
+	Storm  int    `json:"storm,omitempty"` // > 0: rounds of racing FIRST watches of one kind (c12sExec)
+}
+
+// c12sExec: in every round G owners, released together by a barrier, make the first Watch of a kind
+// nobody watches; once all have returned every owner must be registered, exactly one informer
+// must have been started and handlers attached once, reads must work; then the owners are freed
+// one after the other: the informer stays exactly until the last one is freed.
+func c12sExec(s c12cScn) (string, map[string]int) {
+	im := c12cNewIM(s.Seed, false)
+	c, src := c12cNewCache(im)
+	src.attaches = map[int]int{}
+	stats := map[string]int{}
+	gvk := c12Obj(0).GroupVersionKind()
+	owner := c12Owner
+	for round := 0; round < s.Storm; round++ {
+		var ready, wg sync.WaitGroup
+		start := make(chan struct{})
+		errs := make([]error, s.G)
+		ready.Add(s.G)
+		for g := 0; g < s.G; g++ {
+			wg.Add(1)
+			go func(g int) {
+				defer wg.Done()
+				ready.Done()
+				<-start
+				errs[g] = c.Watch(context.Background(), owner(g), c12Obj(0))
+			}(g)
+		}
+		ready.Wait()
+		close(start)
+		wg.Wait()
+		stats["storm-round"]++
+		for g, err := range errs {
+			if err != nil {
+				return fmt.Sprintf("bad storm-watch-error round=%d owner=%d", round, g), stats
+			}
+		}
+		if n := len(c.OwnersForGKV(gvk)); n != s.G {
+			return fmt.Sprintf("bad watch-lost round=%d: %d owners watched successfully, %d registered", round, s.G, n), stats
+		}
+		im.mu.Lock()
+		inf, ok := im.informers[gvk]
+		creates := im.creates
+		im.mu.Unlock()
+		if !ok || creates != round+1 {
+			return fmt.Sprintf("bad informer-starts round=%d informer=%v starts=%d want=%d", round, ok, creates, round+1), stats
+		}
+		src.mu.Lock()
+		att := src.attaches[inf.id]
+		src.mu.Unlock()
+		if att != 1 {
+			return fmt.Sprintf("bad handlers-attached-%d-times round=%d", att, round), stats
+		}
+		for g := 0; g < s.G; g++ {
+			if err := c.Get(context.Background(), client.ObjectKey{Name: "x", Namespace: "ns"}, c12Obj(0)); err != nil {
+				return fmt.Sprintf("bad read-fails-while-watched round=%d owners-left=%d", round, s.G-g), stats
+			}
+			if err := c.Free(context.Background(), owner(g)); err != nil {
+				return "bad free-error", stats
+			}
+			im.mu.Lock()
+			_, ok := im.informers[gvk]
+			im.mu.Unlock()
+			if ok != (g < s.G-1) {
+				return fmt.Sprintf("bad informer-lifetime round=%d freed=%d of %d informer=%v", round, g+1, s.G, ok), stats
+			}
+		}
+	}
+	return c12cFinal(c, im, src, 1, 1), stats
 }
 
 func c12cExec(s c12cScn) (string, map[string]int) {
@@ -299,6 +372,11 @@ func TestVerifC12Conc(t *testing.T) {
 	run := func(s c12cScn) {
 		var stats map[string]int
 		out := verifkit.Guard(func() string {
+			if s.Storm > 0 {
+				o, st := c12sExec(s)
+				stats = st
+				return o
+			}
 			o, st := c12cExec(s)
 			stats = st
 			return o
@@ -328,6 +406,9 @@ func TestVerifC12Conc(t *testing.T) {
 	for i := 0; i < n; i++ {
 		g := []int{2, 4, 8, 16}[i%4]
 		run(c12cScn{T: "conc", G: g, N: r.Pick(4000, 40000) / g, Seed: r.Rng.Int63n(1 << 40), Owners: 1 + i%3, Kinds: 1 + (i/3)%3})
+	}
+	for _, g := range []int{2, 4, 8, 16} {
+		run(c12cScn{T: "conc", G: g, N: 1, Seed: r.Rng.Int63n(1 << 40), Owners: 1, Kinds: 1, Storm: r.Pick(300, 3000)})
 	}
 }
 
